@@ -68,6 +68,12 @@ def _case(draw):
     reqs = draw(st.lists(_request(), min_size=2, max_size=10))
     # concentrate most steps on one or two targets (so that caches written by one protocol are read by another)
     focus = draw(st.lists(st.sampled_from([0, 5, 10, 1, 2, 3, 4, 6, 7]), min_size=1, max_size=2))
+    if draw(st.integers(0, 3)) == 0:
+        # item-information requests for HTML pages (their titles come from a parser run per file), in a row
+        for k in draw(st.lists(st.integers(0, 5), min_size=2, max_size=4)):
+            rq = draw(_request())
+            rq.update(target=k + 1, pick="html", mut="none", raw=None, form=draw(st.sampled_from(["gbang", "gbang", "gdollar", "gopher"])))
+            reqs.append(rq)
     alias = draw(st.booleans())
     if alias:
         focus = [1, 2]  # the aliased directory and its alias (see check_case)
@@ -121,13 +127,26 @@ def _mutate(sel, mut):
     return sel
 
 
+_ROOT = {"sel": "/", "kind": "menu", "what": "root"}
+
+
+def _obj(objs, rq):
+    """the object a structured request addresses"""
+    if rq.get("pick"):
+        # the k-th object of one kind (e.g. HTML pages, whose listing entry is computed by parsing the file)
+        sub = [x for x in objs if x["what"] == rq["pick"]]
+        if sub:
+            return sub[rq["target"] % len(sub)]
+    return objs[rq["target"] % len(objs)] if rq["target"] % 5 else _ROOT
+
+
 def _empty_ok(objs, rq):
     """the addressed object legitimately has an empty body (empty file / empty decompressed file)"""
     if rq["raw"] is not None or rq["mut"] not in ("none", "slash"):
         return False
-    if not rq["target"] % 5:
+    o = _obj(objs, rq)
+    if o is _ROOT:
         return True  # root listing may be empty if everything in it is hidden
-    o = objs[rq["target"] % len(objs)]
     return o["kind"] == "menu" or o.get("content") == ""
 
 
@@ -138,8 +157,8 @@ def _expected(objs, rq):
     """'menu' | 'doc' | 'error' | None (unknown) for a structured request, from the site description alone"""
     if rq["raw"] is not None:
         return None
-    root = not rq["target"] % 5
-    o = {"sel": "/", "kind": "menu", "what": "root"} if root else objs[rq["target"] % len(objs)]
+    o = _obj(objs, rq)
+    root = o is _ROOT
     mut = rq["mut"]
     if mut in ("none", "slash"):
         if mut == "slash" and "|" in o["sel"]:
@@ -160,7 +179,7 @@ def _build_request(objs, rq):
     """-> (request bytes, tls, form or None, selector latin-1 or None, mutated: bool)"""
     if rq["raw"] is not None:
         return world.b(rq["raw"]), rq["rawtls"], None, None, True
-    o = objs[rq["target"] % len(objs)] if rq["target"] % 5 else {"sel": "/", "kind": "menu", "what": "root"}
+    o = _obj(objs, rq)
     sel = _mutate(o["sel"], rq["mut"])
     form = rq["form"]
     fam = clients.FORMS[form][1]
